@@ -373,6 +373,105 @@ def h_measurement_roundtrip(eng):
         pint.set_application_registry(old)
 
 
+_CHILD_UNPICKLE = r"""
+import pickle, sys, json
+import pint
+blobs = pickle.load(open(sys.argv[1], "rb"))
+ureg = pint.get_application_registry()
+out = {}
+for label, (spec, blob) in blobs.items():
+    obj = pickle.loads(blob)
+    kind, mag, units = spec
+    fresh = ureg.Unit(units) if kind == "unit" else (ureg.Quantity(mag, units) if kind == "quantity" else pint.util.UnitsContainer(units))
+    table = {fresh: "found"}
+    setof = {fresh}
+    out[label] = [bool(obj == fresh), bool(fresh == obj), hash(obj) == hash(fresh), table.get(obj) == "found", obj in setof,
+                  str(getattr(obj, "units", obj)) == str(getattr(fresh, "units", fresh))]
+print(json.dumps(out, sort_keys=True))
+"""
+
+
+def h_pickle_across_processes(eng):
+    """a pickle is read by another interpreter (another string hash seed): the objects equal, hash
+    like and are found under the identical objects built there -- also when they had been hashed
+    (used as keys, compared, converted) before they were pickled"""
+    import json
+    import os
+    import shutil
+    import subprocess
+    import sys
+    import tempfile
+
+    src = regs.float_default()
+    blobs = {}
+    specs = [("unit", None, "kilometer / hour"), ("unit", None, "newton * meter ** 2"), ("quantity", 2.5, "millisecond"), ("quantity", 3, "meter / second ** 2"), ("container", None, {"meter": 1, "second": -2})]
+    for kind, mag, units in specs:
+        obj = src.Unit(units) if kind == "unit" else (src.Quantity(mag, units) if kind == "quantity" else pint.util.UnitsContainer(units))
+        for used in ("fresh", "hashed"):
+            if used == "hashed":
+                hash(obj)
+                {obj: 1}
+                if kind == "quantity":
+                    obj.to_base_units()
+                    hash(obj._units)
+                elif kind == "unit":
+                    hash(obj._units)
+                    obj == src.Unit(units)
+            for proto in (0, 2, pickle.HIGHEST_PROTOCOL):
+                blobs[f"{kind}:{units}:{used}:p{proto}"] = ((kind, mag, units), pickle.dumps(obj, proto))
+    tmp = tempfile.mkdtemp(prefix="pv_c18x_")
+    try:
+        fn = os.path.join(tmp, "blobs.pkl")
+        with open(fn, "wb") as f:
+            pickle.dump(blobs, f)
+        for seed in (21, 22):
+            env = dict(os.environ, PYTHONPATH="/repo", PYTHONHASHSEED=str(seed))
+            r = subprocess.run([sys.executable, "-c", _CHILD_UNPICKLE, fn], capture_output=True, text=True, env=env, cwd=tmp, timeout=300)
+            if r.returncode != 0:
+                eng.fail(f"pickle-across-processes:seed{seed}:reader-failed", detail=r.stderr[-300:], stop=False)
+                continue
+            res = json.loads(r.stdout.strip().splitlines()[-1])
+            for label, flags in sorted(res.items()):
+                for name, ok in zip(("eq", "eq-reflected", "hash", "dict-lookup", "set-membership", "same-text"), flags):
+                    eng.prove(ok, f"pickle-across-processes:seed{seed}:{label}:{name}")
+    finally:
+        shutil.rmtree(tmp, ignore_errors=True)
+
+
+def h_deepcopy_measurements(eng):
+    """a deep-copied registry makes its own measurements: they follow the copy's definitions and
+    do not mix with the source's objects"""
+    import math
+
+    src = pint.UnitRegistry()
+    src.define("cubit = 0.45 * meter")
+    cp = copy.deepcopy(src)
+    cp.define("span = 0.26 * meter")
+    import logging
+
+    logging.getLogger("pint").setLevel(logging.CRITICAL)
+    cp._on_redefinition = "ignore"
+    cp.define("cubit = 0.52 * meter")
+    cp._build_cache()
+    for label, m in (("Measurement()", cp.Measurement(10.0, 1.0, "cubit")), ("plus_minus", cp.Quantity(10.0, "cubit").plus_minus(1.0))):
+        eng.prove(m._REGISTRY is cp, f"deepcopy-measurement:{label}:belongs-to-the-copy")
+        eng.prove(math.isclose(m.to("meter").value.magnitude, 5.2, rel_tol=1e-12), f"deepcopy-measurement:{label}:converts-with-the-copy's-definitions")
+        for oname, fn in (("add", lambda: m + src.Quantity(1.0, "meter")), ("lt", lambda: m < src.Quantity(1.0, "meter")), ("mul", lambda: m * src.Measurement(1.0, 0.1, "meter")), ("sub", lambda: src.Measurement(1.0, 0.1, "meter") - m)):
+            try:
+                fn()
+            except ValueError:
+                eng.prove(True, f"deepcopy-measurement:{label}:{oname}:mixing-with-the-source-raises")
+            else:
+                eng.fail(f"deepcopy-measurement:{label}:{oname}:mixed-silently-with-the-source", stop=False)
+        try:
+            r = m + cp.Quantity(1.0, "span")
+            eng.prove(math.isclose(r.to("meter").value.magnitude, 5.46, rel_tol=1e-12), f"deepcopy-measurement:{label}:combines-with-the-copy's-quantities")
+        except ValueError:
+            eng.fail(f"deepcopy-measurement:{label}:refuses-the-copy's-own-quantities", stop=False)
+    m0 = src.Measurement(10.0, 1.0, "cubit")
+    eng.prove(m0._REGISTRY is src and math.isclose(m0.to("meter").value.magnitude, 4.5, rel_tol=1e-12), "deepcopy-measurement:source-unaffected")
+
+
 MIN_DISCHARGED = {"H18.a": 1500, "H18.b": 30, "H18.c": 8}
 
 
@@ -394,4 +493,6 @@ def cases(tier, seed):
     out.append(Case("H18.d", "lazy-registry", M, "h_lazy", {}, validate=0, weight=30.0))
     out.append(Case("H18.e", "exceptions", M, "h_exceptions", {}, kind="conc"))
     out.append(Case("H18.e", "measurement", M, "h_measurement_roundtrip", {}, kind="conc"))
+    out.append(Case("H18.e", "pickle-across-processes", M, "h_pickle_across_processes", {}, kind="conc"))
+    out.append(Case("H18.c", "deepcopy-measurements", M, "h_deepcopy_measurements", {}, kind="conc"))
     return out
